@@ -1203,9 +1203,6 @@ class TermCanvas(Canvas):
         """
         Set graphics rendition.
         """
-        if attrs[-1] == 0:
-            self.attrspec = None
-
         attributes = set()
         if self.attrspec is None:
             fg = bg = None
